@@ -80,6 +80,9 @@ def cases(tier, seed, shard, nshards):
             t_ += rng.choice([0.0, 0.01, 0.3])
             pipes.append({"arrival": repr(round(t_, 4)), "rows": rng.choice([1, 2])})
         yield {"kind": "jitter", "pipes": pipes, "delta": rng.choice([0.0, 0.05, 2.0]), "seed": 7, "_big": True}
+        # dense: thousands of pipelines within one delta of each other
+        yield {"kind": "jitter", "pipes": [{"arrival": repr(round(j * 0.001, 3)), "rows": 1} for j in range(6000)],
+               "delta": 5.0, "seed": rng.choice([1, 42]), "_big": True}
     for i in range(N_JIT[tier]):
         n = rng.randint(3, 60)
         t = 0.0
